@@ -711,6 +711,8 @@ class C13(Prop):
         if ref["dir"]:
             res.labels.append("dir-inside")
 
+        env = make_env(loader=build_loader(case, tdir))  # one fresh Environment per case
+
         # (access, mode) -> bucket stem, detail ; decided after both modes ran
         found: dict[tuple[str, str], list[tuple[str, str, str]]] = {}
 
@@ -720,7 +722,7 @@ class C13(Prop):
                 found[(access, mode)] = fails
                 where = f"name={name!r} loader={kind_name} roots={roots} ext={case.get('ext')!r} {mode} {access}"
                 res.evaluations += 1
-                env = make_env(loader=build_loader(case, tdir))
+                env.loader = build_loader(case, tdir)  # a fresh loader (and cache) for every evaluation
                 try:
                     tmpl, data = prepare(env, access, name)
                 except _LiteralMismatch:
